@@ -1,6 +1,6 @@
 #!/bin/bash
 # tools/seedcheck.sh <seed-dir> <Cnn> [tier]: apply a seeded change to /repo, run the property's check, undo.
-d="$1"; prop="$2"; tier="${3:-quick}"
+d=$(readlink -f "$1"); prop="$2"; tier="${3:-quick}"
 cd /verif
 git -C /repo apply "$d/patch.diff" || { echo "patch does not apply"; exit 2; }
 ./check "$prop" "$tier" | grep -v '^KNOWN-FINDING' | tail -6
